@@ -192,6 +192,26 @@ def run(prog, chk):
         for wn in wr:
             ok = ok and c.id in f4.cfg.reach([wn.id])
     chk.ob("R4.kexinit-seqno-zero", "_parse_kex_init", ok, pki.loc, "strict first kex: m.seqno != 0 raises MessageOrderError before any selection")
+    # ... which means "the peer's first packet" only while the counter cannot wrap back to 0 before the first exchange
+    # is over: in both directions the *masked* successor is compared with 0 and that raises while the initial kex is on
+    for fname, fld in (("send_message", "self.__sequence_number_out"), ("read_message", "self.__sequence_number_in")):
+        pf = prog.func("Packetizer." + fname)
+        fp_ = Flow(prog, pf, implicit=False)
+        masked = ("%s + 1 & xffffffff" % fld, "%s + 1 & 4294967295" % fld, "(%s + 1) %% 4294967296" % fld)
+        tests = []
+        for c in fp_.nodes(lambda n: n.kind == "cond" and isinstance(n.ast, ast.Compare) and len(n.ast.ops) == 1 and isinstance(n.ast.ops[0], ast.Eq)):
+            l_, r_ = c.ast.left, c.ast.comparators[0]
+            if isinstance(l_, ast.Constant):
+                l_, r_ = r_, l_
+            if isinstance(r_, ast.Constant) and r_.value == 0 and any(t in masked for t in fp_.expand_text(l_, c)):
+                if all(t in masked for t in fp_.expand_text(l_, c)):
+                    tests.append(c)
+        rs = fp_.nodes(lambda n: n.kind == "raise")
+        ids = set(c.id for c in tests)
+        gk = fp_.edge_guard(lambda t: unparse(t) == "self._initial_kex_done", "F")
+        okr = bool(tests) and any(fp_.dominated([r], guard_edge=lambda s_, lab, d_: s_ in ids and lab == "T") and fp_.dominated([r], guard_edge=gk) for r in rs)
+        chk.ob("R4.counter-cannot-wrap-during-first-kex", fname, okr, pf.loc,
+               "(%s + 1) & 0xffffffff == 0 while not _initial_kex_done raises (%d such test(s))" % (fld.split(".")[-1], len(tests)))
 
     # R5 ------------------------------------------------------------------------------------
     for fname, reset in (("_activate_inbound", "self.packetizer.reset_seqno_in"), ("_activate_outbound", "self.packetizer.reset_seqno_out")):
